@@ -1,7 +1,7 @@
 // C19 driver: drives STIR's array filters and Fourier transforms and records inputs and outputs.
 // No property formula, no expected value, no comparison here: TLC (Trace_Conv.tla, Trace_DFT4.tla) decides.
 //   c19_fourier conv <out.ndjson> <n-random> <tier>    exact integer/dyadic instances of the convolution filters
-//   c19_fourier dft  <out.ndjson> <max-total-size> <repeats> <max-table-length>   fourier / inverse_fourier / real-data transforms
+//   c19_fourier dft  <out.ndjson> <max-total-size> <repeats> <max-table-length> <max-size-per-axis-tables>   fourier / inverse_fourier / real-data transforms
 //   c19_fourier filt <out.ndjson> <n>                  separable Gaussian / Metz filters on piecewise constant data
 //   c19_fourier more <out.ndjson> <n>                  median/minimal/threshold/truncate/chained processors, ramp filter, array functions, parsing round trips
 // Number encodings: kernel and data values are integers times 2^-scale (exact in single precision);
@@ -496,6 +496,44 @@ static void one_tw(vh::Trace& tr, int n, int sign, vh::Rng& rng) {
   j.boolean("err", err);
   tr.emit(j);
 }
+// multi-dimensional transform characterised through per-axis twiddle tables: transforms of the unit impulses at 1 along each
+// axis (the tables) and of sparse integer data
+template <int D> static void one_twn(vh::Trace& tr, const int* n, int sign, vh::Rng& rng) {
+  A3 t; for (int d = 0; d < 3; ++d) t.n[d] = n[d];
+  const size_t N = (size_t)t.size();
+  const int wk = 15;
+  vh::Json j("TWN");
+  j.num("id", ++ev_id).num("dim", D).arr("n", v3(n)).num("sign", sign).num("wk", wk);
+  bool err = vh::threw([&] {
+    static const char* KRE[3] = { "t1re", "t2re", "t3re" }; static const char* KIM[3] = { "t1im", "t2im", "t3im" };
+    for (int d = 0; d < 3; ++d) {
+      std::vector<long long> re(N, 0), im(N, 0);
+      int p[3] = { 0, 0, 0 }; p[d] = n[d] > 1 ? 1 : 0;
+      re[(size_t)((p[0] * n[1] + p[1]) * n[2] + p[2])] = 1;
+      Array<D, cf> c = to_carray<D>(n, re, im, 0);
+      fourier(c, sign);
+      clog<D>(j, KRE[d], KIM[d], c, n, wk);
+    }
+    // sparse data: up to 4 non-zero Gaussian integers
+    const int nz = rng.range(1, 4);
+    std::vector<long long> re(N, 0), im(N, 0), are, aim; std::vector<std::vector<int>> pos;
+    for (int z = 0; z < nz; ++z) {
+      const size_t q = (size_t)rng.range(0, (int)N - 1);
+      if (re[q] != 0 || im[q] != 0) continue;
+      re[q] = rng.range(-60, 60); im[q] = rng.range(-60, 60);
+      if (re[q] == 0 && im[q] == 0) re[q] = 1;
+      int p[3]; t.pos((long)q, p);
+      pos.push_back({ p[0], p[1], p[2] }); are.push_back(re[q]); aim.push_back(im[q]);
+    }
+    Array<D, cf> c = to_carray<D>(n, re, im, 0);
+    fourier(c, sign);
+    const int kX = scale_for(cmaxabs<D>(c, n), 7);
+    j.arr2("pos", pos).arr("are", are).arr("aim", aim).num("kX", kX);
+    clog<D>(j, "Xre", "Xim", c, n, kX);
+  });
+  j.boolean("err", err);
+  tr.emit(j);
+}
 template <int D> static void dft_shape(vh::Trace& tr, const int* n, vh::Rng& rng, int repeats) {
   A3 t; for (int d = 0; d < 3; ++d) t.n[d] = n[d];
   const size_t N = (size_t)t.size();
@@ -516,7 +554,15 @@ template <int D> static void dft_shape(vh::Trace& tr, const int* n, vh::Rng& rng
     if (n[2] >= 2) { one_rc<D>(tr, n, 1, re, sx); one_rc<D>(tr, n, -1, im, sx); }
   }
 }
-static void mode_dft(vh::Trace& tr, long max_total, int repeats, vh::Rng& rng, int max_tw) {
+static void mode_dft(vh::Trace& tr, long max_total, int repeats, vh::Rng& rng, int max_tw, long max_twn) {
+  // per-axis tables: every shape with axis lengths 1, 2, 4, 8, 16 (at least one axis >= 8), total size bounded
+  for (int e1 = 0; e1 <= 4; ++e1) for (int e2 = 0; e2 <= 4; ++e2) for (int e3 = 0; e3 <= 4; ++e3) {
+    const int n[3] = { 1 << e1, 1 << e2, 1 << e3 };
+    if (std::max(e1, std::max(e2, e3)) < 3 || (long)n[0] * n[1] * n[2] > max_twn) continue;
+    const int sign = (e1 + e2 + e3) % 2 ? 1 : -1;
+    if (e1 > 0) { one_twn<3>(tr, n, sign, rng); if (max_twn > 1024) one_twn<3>(tr, n, -sign, rng); }
+    else if (e2 > 0) { one_twn<2>(tr, n, sign, rng); one_twn<2>(tr, n, -sign, rng); }
+  }
   for (int e = 0; (1 << e) <= max_tw; ++e)
     for (int sign : { 1, -1 })
       for (int rep = 0; rep < (e <= 6 ? 2 : 1); ++rep) one_tw(tr, 1 << e, sign, rng);
@@ -992,7 +1038,7 @@ int main(int argc, char** argv) {
   vh::Trace tr(argv[2]);
   vh::Rng rng((uint64_t)vh::seed_from_env());
   if (mode == "conv") mode_conv(tr, argc > 3 ? atol(argv[3]) : 200, argc > 4 ? atoi(argv[4]) : 0, rng);
-  else if (mode == "dft") mode_dft(tr, argc > 3 ? atol(argv[3]) : 1024, argc > 4 ? atoi(argv[4]) : 1, rng, argc > 5 ? atoi(argv[5]) : 256);
+  else if (mode == "dft") mode_dft(tr, argc > 3 ? atol(argv[3]) : 1024, argc > 4 ? atoi(argv[4]) : 1, rng, argc > 5 ? atoi(argv[5]) : 256, argc > 6 ? atol(argv[6]) : 512);
   else if (mode == "filt") mode_filt(tr, argc > 3 ? atol(argv[3]) : 30, rng);
   else if (mode == "more") mode_more(tr, argc > 3 ? atol(argv[3]) : 30, rng);
   else return 2;
